@@ -152,6 +152,11 @@ func (t *State) ImmediateVerifyAutoTx(blockHeight int64, tx *pb.Transaction, isR
 	if len(autoTx.TxOutputsExt) == 0 {
 		return false, fmt.Errorf("get timer tasks failed, no tx outputs ext")
 	}
+	// only the read/write set is compared with the locally generated timer transaction below and
+	// no signature is required: an autogen transaction must not move tokens
+	if len(tx.TxInputs) != 0 || len(tx.TxOutputs) != 0 {
+		return false, ErrInvalidAutogenTx
+	}
 
 	// Pre processing of tx data
 	if !isRootTx && tx.Version == RootTxVersion {
@@ -930,6 +935,12 @@ func (t *State) verifyDAGTxs(blockHeight int64, txs []*pb.Transaction, isRootTx 
 		}
 		txid := string(tx.GetTxid())
 		if unconfirmToConfirm[txid] == false {
+			if tx.Autogen && !tx.Coinbase && !t.verifyAutogenTxValid(tx) {
+				// flagged autogen (hence exempt from the user-transaction verification below)
+				// but not a well-formed timer transaction
+				t.log.Warn("dotx found invalid autogen tx", "txid", fmt.Sprintf("%x", tx.Txid))
+				return ErrInvalidAutogenTx
+			}
 			if t.verifyAutogenTxValid(tx) {
 				// 校验auto tx
 				if ok, err := t.ImmediateVerifyAutoTx(blockHeight, tx, isRootTx); !ok {
